@@ -22,7 +22,7 @@ ok = True
 try:
     # demo files = untracked files of the seed worktree that are not the deliverable metadata
     rc, out = sh(['git', 'ls-files', '--others', '--exclude-standard'], seeddir)
-    demos = [f for f in out.split('\n') if f and not f.startswith('seeded') and not f.startswith('.') and not f.endswith('.patch')]
+    demos = [f for f in out.split('\n') if f and os.path.basename(f) not in ('seeded_meta.json',) and not f.startswith('.') and not f.endswith('.patch')]
     for f in demos:
         os.makedirs(os.path.dirname(os.path.join(W, f)) or W, exist_ok=True)
         shutil.copy(os.path.join(seeddir, f), os.path.join(W, f))
